@@ -172,7 +172,6 @@ type verifIter struct {
 	items      []verifKV
 	pos        int
 	start, end []byte
-	strip      int
 }
 
 func (it *verifIter) Domain() ([]byte, []byte) { return it.start, it.end }
@@ -187,7 +186,7 @@ func (it *verifIter) Key() []byte {
 	if it.pos >= len(it.items) {
 		panic("iterator: Key on invalid iterator")
 	}
-	return verif_bytes(verif_str_drop(it.items[it.pos].k, it.strip))
+	return verif_bytes(it.items[it.pos].k)
 }
 func (it *verifIter) Value() []byte {
 	if it.pos >= len(it.items) {
@@ -197,87 +196,6 @@ func (it *verifIter) Value() []byte {
 }
 func (it *verifIter) Error() error { return nil }
 func (it *verifIter) Close() error { return nil }
-
-// prefix store (model of github.com/cosmos/cosmos-sdk/store/prefix.Store)
-
-type verifPrefixStore struct {
-	parent storetypes.KVStore
-	prefix []byte
-}
-
-func verifCloneAppend(bz []byte, tail []byte) []byte {
-	res := make([]byte, 0, len(bz))
-	res = append(res, bz...)
-	res = append(res, tail...)
-	return res
-}
-
-func (s *verifPrefixStore) key(key []byte) []byte {
-	if key == nil {
-		panic("nil key on Store")
-	}
-	return verifCloneAppend(s.prefix, key)
-}
-func (s *verifPrefixStore) Get(key []byte) []byte   { return s.parent.Get(s.key(key)) }
-func (s *verifPrefixStore) Has(key []byte) bool     { return s.parent.Has(s.key(key)) }
-func (s *verifPrefixStore) Set(key, value []byte)   { s.parent.Set(s.key(key), value) }
-func (s *verifPrefixStore) Delete(key []byte)       { s.parent.Delete(s.key(key)) }
-func (s *verifPrefixStore) GetStoreType() storetypes.StoreType { return s.parent.GetStoreType() }
-func (s *verifPrefixStore) CacheWrap() storetypes.CacheWrap    { panic("verif: CacheWrap not modelled") }
-func (s *verifPrefixStore) CacheWrapWithTrace(w io.Writer, tc storetypes.TraceContext) storetypes.CacheWrap {
-	panic("verif: CacheWrap not modelled")
-}
-
-func verifPrefixEnd(prefix []byte) []byte {
-	if len(prefix) == 0 {
-		return nil
-	}
-	end := make([]byte, len(prefix))
-	copy(end, prefix)
-	for {
-		if end[len(end)-1] != byte(255) {
-			end[len(end)-1]++
-			break
-		}
-		end = end[:len(end)-1]
-		if len(end) == 0 {
-			end = nil
-			break
-		}
-	}
-	return end
-}
-
-func (s *verifPrefixStore) Iterator(start, end []byte) storetypes.Iterator {
-	newstart := verifCloneAppend(s.prefix, start)
-	var newend []byte
-	if end == nil {
-		newend = verifPrefixEnd(s.prefix)
-	} else {
-		newend = verifCloneAppend(s.prefix, end)
-	}
-	it := s.parent.Iterator(newstart, newend).(*verifIter)
-	it.strip += len(s.prefix)
-	return it
-}
-
-func (s *verifPrefixStore) ReverseIterator(start, end []byte) storetypes.Iterator {
-	newstart := verifCloneAppend(s.prefix, start)
-	var newend []byte
-	if end == nil {
-		newend = verifPrefixEnd(s.prefix)
-	} else {
-		newend = verifCloneAppend(s.prefix, end)
-	}
-	it := s.parent.ReverseIterator(newstart, newend).(*verifIter)
-	it.strip += len(s.prefix)
-	return it
-}
-
-//verif:model github.com/cosmos/cosmos-sdk/store/prefix.NewStore
-func model_prefix_NewStore(parent storetypes.KVStore, prefix []byte) *verifPrefixStore {
-	return &verifPrefixStore{parent: parent, prefix: prefix}
-}
 
 // ---------------------------------------------------------------- codec
 
